@@ -10,6 +10,7 @@ mod m_c04pkt;
 mod pkt;
 mod m_c16grid;
 mod m_e2e;
+mod m_platform;
 mod m_cfgmap;
 mod m_c20;
 mod m_recv;
@@ -20,6 +21,7 @@ mod m_tsops;
 mod oracles;
 mod simnet;
 mod strat;
+mod tracesub;
 
 use std::io::Write;
 
@@ -83,6 +85,7 @@ fn main() {
         "cfgmap" => m_cfgmap::run(&args, &mut out),
         "c16grid" => m_c16grid::run(&args, &mut out),
         "e2e" => m_e2e::run(&args, &mut out),
+        "platform" => m_platform::run(&args, &mut out),
         other => { eprintln!("unknown mode {other}"); std::process::exit(2); }
     }
     out.w.flush().unwrap();
